@@ -17,7 +17,11 @@
    * two switches select the code as written or a repaired variant:
        safe  = Gate.apply restores p[0] also when _apply raises (try/finally)
        fixed = the engine copies the measured values into the next segment *by mode*
-               (as written: `for k, v in enumerate(self.samples)` iterates over shots). *)
+               (as written: `for k, v in enumerate(self.samples)` iterates over shots)
+       linkok = Program._linked_copy does not deep-copy the `source` attribute (as written it
+               does, and deep-copying a Program whose ops hold MeasuredParameters raises
+               AttributeError: compiling -- hence running -- an already compiled program that
+               uses measured parameters fails). *)
 From Coq Require Import List ZArith Bool Arith Lia.
 Import ListNotations.
 
@@ -62,7 +66,7 @@ Definition store := list (list pexpr).
 Inductive okind := KGate | KOp | KMeas.
 Record cmd := mkCmd { ckind : okind; ccls : nat; cpl : nat; cdag : bool; cmodes : list nat }.
 
-Inductive err := EIndex | EParam | EBackend | ERuntime.
+Inductive err := EIndex | EParam | EBackend | ERuntime | EAttr.
 Inductive res (A : Type) := Ok (a : A) | Err (e : err) (a : A).
 Arguments Ok {A} a.
 Arguments Err {A} e a.
@@ -89,9 +93,9 @@ Record st (B : Type) := mkSt { sb : B; sstore : store; svals : vals }.
 Unset Primitive Projections.
 Arguments mkSt {B}. Arguments sb {B}. Arguments sstore {B}. Arguments svals {B}.
 
-Record variant := mkVariant { safe : bool; fixed : bool }.
-Definition as_written := mkVariant false false.
-Definition repaired := mkVariant true true.
+Record variant := mkVariant { safe : bool; fixed : bool; linkok : bool }.
+Definition as_written := mkVariant false false false.
+Definition repaired := mkVariant true true true.
 
 Section Engine.
 Variable B : Type.
@@ -160,7 +164,12 @@ Fixpoint exec (s : st B) (cs : list cmd) : res (st B * mlog) :=
   end.
 
 (* ---------------------------------------------------------------- programs, world, engine *)
-Record prog := mkProg { pid : nat; pregs : nat; pn : nat; pcirc : list cmd }.
+(* pcopy: the program is itself a linked copy (result of Program.compile) *)
+Record prog := mkProg { pid : nat; pregs : nat; pn : nat; pcopy : bool; pcirc : list cmd }.
+
+Definition is_symbolic (e : pexpr) : bool := match e with PConst _ => false | _ => true end.
+Definition circ_symbolic (st : store) (cs : list cmd) : bool :=
+  existsb (fun c => existsb is_symbolic (nth (cpl c) st [])) cs.
 
 (* everything mutable outside the engine: parameter lists of op objects, RegRef values per
    RegRef set, `locked` flag per user program *)
@@ -183,6 +192,7 @@ Definition run_seg (we : world * eng) (p : prog) : res (world * eng) :=
   let w1 := mkWorld (wstore w) (wvals w) (set_nth (wlocked w) (pid p) true) in   (* compile -> _linked_copy -> lock *)
   let v0 := nth (pregs p) (wvals w1) [] in
   let start : res (B * vals) :=
+    if pcopy p && negb (linkok V) && circ_symbolic (wstore w) (pcirc p) then Err EAttr (binit 0, v0) else
     match erun e, eb e with
     | prev :: _, Some b =>
         if Nat.eqb (pn p) (pn prev) then Ok (b, copy_vals e v0) else Err ERuntime (b, v0)
